@@ -269,6 +269,30 @@ def sync (rows : List Row) (sel : Option (List Int)) (ts : List Rat) (delay : Ra
   else
     pure { height := h, width := w, pixels := img, origin := (ox, oy), spot := spot }
 
+/-! ## the signal and its clock as the caller holds them -/
+
+/-- `data.size` of an array of the given shape.  The function reads the signal only through `data.flat`
+(C order) and `data.size`: sample `k` of the continuous signal is `data.flat[k]` whatever the shape
+(`(n,)`, `(1, n)`, `(k, n / k)` rows of consecutive samples, `(n, 1)`, views). -/
+def dataSize (shape : List Nat) : Nat := shape.foldl (· * ·) 1
+
+/-- `times`: an array of time stamps of the signal's size (any shape, it is flattened), or a float, the
+acquisition time per sample -/
+inductive Clock where
+  | stamps (ts : List Rat)
+  | interval (dt : Rat)
+  deriving Repr
+
+/-- `np.arange(data.size) * times` for a float, the (flattened) array otherwise; `n = data.size` -/
+def Clock.times (n : Nat) : Clock → List Rat
+  | .stamps ts => ts
+  | .interval dt => (List.range n).map (fun (k : Nat) => (k : Rat) * dt)
+
+/-- the whole function on a signal held in an array of shape `shape` with the clock given either way -/
+def syncClock (rows : List Row) (sel : Option (List Int)) (shape : List Nat) (clk : Clock) (delay : Rat)
+    (isnan : Nat → Bool) (squeeze : Bool) : Except String Result :=
+  sync rows sel (clk.times (dataSize shape)) delay isnan squeeze
+
 /-! ## specification: rendering a rastered acquisition, and its ground-truth image -/
 
 inductive Dir | lr | rl | tb | bt
@@ -499,6 +523,21 @@ def render (a : Acq) (sel : Option (List Int)) : Option Rendered := do
   pure { rows := (emitAll a).rows
          times := s.map (fun x => a.t0 + (x.t - s0.t) / 1000)
          delay := (s0.t - (f : Rat)) / 1000 }
+
+/-- the stamps are those of a signal sampled every `dt` seconds: stamp `k` is the first one plus `k * dt` -/
+def isUniform (ts : List Rat) (dt : Rat) : Bool :=
+  decide (0 ≤ dt) &&
+    decide (ts = (List.range ts.length).map (fun (k : Nat) => ts.headD 0 + (k : Rat) * dt))
+
+/-- the acquisition time per sample a caller may pass instead of the stamps: defined when the recorded
+signal was sampled at a constant interval (all dwell times equal, every laser-off gap a whole number of
+them).  A signal of a single sample is described by any interval; the first pattern's dwell time is
+taken. -/
+def Acq.interval (a : Acq) (ts : List Rat) : Option Rat :=
+  match ts with
+  | [] => none
+  | [_] => a.patterns.head?.map (fun p => (p.dwell : Rat) / 1000)
+  | t0 :: t1 :: _ => if isUniform ts (t1 - t0) then some (t1 - t0) else none
 
 def selectedPatterns (a : Acq) (sel : Option (List Int)) : List Pattern :=
   a.patterns.filter (fun p => isSelected sel p.seq)
